@@ -20,6 +20,7 @@ thread_local! {
     static EVALS: Cell<u64> = const { Cell::new(0) };
     static SKIPPED: Cell<u64> = const { Cell::new(0) };
     static LEAN: Cell<bool> = const { Cell::new(false) };
+    static ITER_SCRIPTS: Cell<u64> = const { Cell::new(0) };
 }
 fn ev(n: u64) {
     EVALS.with(|c| c.set(c.get() + n));
@@ -448,6 +449,30 @@ where
     if ch.next().is_some() || ch.len() != 0 {
         fail!("channels_end", "yields beyond N");
     }
+    // iterator-protocol conformance of the channel iterators: nth, fold, count, last, for_each,
+    // skip, step_by, size_hint, len, next_back, nth_back, rfold, rev against plain next(), after
+    // any prefix of next()/nth() steps
+    {
+        let lean = LEAN.with(|l| l.get());
+        let mut rng = Rng::derive(seed, &[33, N as u64]);
+        let scripts = if lean { 5 } else { 48 };
+        let cs = case();
+        let mut n = checks::iterconf::check_iter("frame_channels", &cs, || f.channels(), rep, &mut rng, scripts);
+        n += checks::iterconf::check_exact_size("frame_channels", &cs, || f.channels(), rep);
+        n += checks::iterconf::check_iter("frame_channels_ref", &cs, || f.channels_ref(), rep, &mut rng, scripts);
+        n += checks::iterconf::check_exact_size("frame_channels_ref", &cs, || f.channels_ref(), rep);
+        n += checks::iterconf::check_double_ended("frame_channels_ref", &cs, || f.channels_ref(), rep, &mut rng, scripts);
+        if !lean {
+            // channels_mut needs exclusive access per instance: a leaked copy of the frame each time
+            let mk = || Box::leak(Box::new(f)).channels_mut();
+            n += checks::iterconf::check_exact_size("frame_channels_mut", &cs, mk, rep);
+            let mkv = || checks::iterconf::Forward(Box::leak(Box::new(f)).channels_mut(), |x: &mut S| *x);
+            n += checks::iterconf::check_iter("frame_channels_mut", &cs, mkv, rep, &mut rng, 12);
+            n += checks::iterconf::check_double_ended("frame_channels_mut", &cs, mkv, rep, &mut rng, 12);
+        }
+        ITER_SCRIPTS.with(|c| c.set(c.get() + n));
+        ev(n);
+    }
     // channels_ref / channels_mut, forwards and backwards
     if !f.channels_ref().zip(f.iter()).all(|(a, b)| a.same(*b)) || f.channels_ref().len() != N || !f.channels_ref().rev().zip(f.iter().rev()).all(|(a, b)| a.same(*b)) {
         fail!("channels_ref", "order mismatch");
@@ -551,6 +576,15 @@ where
         if chans.len() != 1 || !chans[0].same(s) {
             fail!("channels", "{:?}", chans);
         }
+        if k < 3 {
+            let mut rng = Rng::derive(seed, &[34, k]);
+            let cs = case();
+            let mut n = checks::iterconf::check_iter("mono_channels", &cs, || Frame::channels(s), rep, &mut rng, 10);
+            n += checks::iterconf::check_iter("mono_channels_ref", &cs, || Frame::channels_ref(&s), rep, &mut rng, 10);
+            n += checks::iterconf::check_double_ended("mono_channels_ref", &cs, || Frame::channels_ref(&s), rep, &mut rng, 6);
+            ITER_SCRIPTS.with(|c| c.set(c.get() + n));
+            ev(n);
+        }
         if Frame::channels_ref(&s).count() != 1 || !Frame::channel(&s, 0).map(|x| x.same(s)).unwrap_or(false) || Frame::channel(&s, 1).is_some() {
             fail!("channel", "indexing");
         }
@@ -590,6 +624,10 @@ macro_rules! frames_for {
 fn flush(rep: &mut Report) {
     rep.eval(EVALS.with(|c| c.replace(0)));
     rep.count("cases_outside_the_documented_domain_skipped", SKIPPED.with(|c| c.replace(0)));
+    let n = ITER_SCRIPTS.with(|c| c.replace(0));
+    if n > 0 {
+        rep.hit_n("iterator_conformance_scripts", n);
+    }
 }
 
 fn all_frames(rep: &mut Report, seed: u64, thorough: bool, sel: &dyn Fn(usize) -> bool) {
@@ -651,6 +689,7 @@ fn main() {
         flush(&mut rep);
         finish(&cli, rep, t0);
     }
+    rep.oblige("iterator_conformance_scripts", 1);
     match cli.stage.as_str() {
         "main" => {
             rep.oblige("sample_formats_checked", 14);
